@@ -22,8 +22,8 @@ ID = 'C04'
 TIER = 'quick'
 LEVEL = 'exploration'
 ENGINE = 'schedule'
-BUDGET = {'quick': 1500, 'thorough': 300000}
-WALL = {'quick': 50, 'thorough': 1800}
+BUDGET = {'quick': 2500, 'thorough': 300000}
+WALL = {'quick': 90, 'thorough': 1800}
 RULE = ('2-3 concurrent trash-put processes of one user, each trashing 1-3 entries with the same base names from different directories '
         '(files, directories, symlinks, dangling links) into the same trash directory, which is absent (all create it), present, or pre-filled '
         'with foo, foo_1 ... foo_k pairs, orphan payloads (file, directory, dangling symlink) and stray infos; a crowded variant pre-fills 100 '
@@ -104,7 +104,7 @@ def gen(rng):
                 if len(nm.encode('utf-8')) > 244:
                     # after ENAMETOOLONG the trash name is the base name shortened by len('_1.trashinfo')
                     o = nm[:len(nm) - len('_1.trashinfo')] + '_1'
-                kind = rng.choice(['file', 'dir', 'dangling', 'strayinfo'])
+                kind = rng.choice(['file', 'dir', 'dangling', 'strayinfo', 'info_then_payload', 'info_then_payload'])
                 steps.append(['d', ht + '/files', 0o700])
                 steps.append(['d', ht + '/info', 0o700])
                 if kind == 'file':
@@ -112,6 +112,13 @@ def gen(rng):
                 elif kind == 'dir':
                     steps.append(['d', ht + '/files/' + o, 0o755])
                     steps.append(['f', ht + '/files/' + o + '/inner', 'orphan inner', 0o644])
+                elif kind == 'info_then_payload':
+                    # an info without payload at the first free name, a payload without info at the name after it:
+                    # every candidate name needs its own probe
+                    steps.append(['f', ht + '/info/' + o + '.trashinfo', G.fmt_info(TG.pct(home + '/old/' + nm), '2019-09-09T09:09:09'), 0o600])
+                    if len(nm.encode('utf-8')) <= 244:
+                        o2 = '%s_%d' % (short, k + 2)
+                        steps.append(rng.choice([['f', ht + '/files/' + o2, 'PRECIOUS orphan payload', 0o644], ['l', ht + '/files/' + o2, 'nowhere-at-all']]))
                 elif kind == 'dangling':
                     steps.append(['l', ht + '/files/' + o, 'nowhere-at-all'])
                 else:
